@@ -132,8 +132,9 @@ impl BufferParser for Parser {
                     Ok(CallbackAction::NoUpdate)
                 }
                 2 => {
-                    caret.pos.x = self.avt_repeat_char as i32;
-                    caret.pos.y = ch as i32;
+                    // the two position bytes are 1-based (the writer's Home is `^V^H 1 1`)
+                    caret.pos.x = max(0, self.avt_repeat_char as i32 - 1);
+                    caret.pos.y = max(0, ch as i32 - 1);
 
                     self.avt_state = AvtReadState::Chars;
                     Ok(CallbackAction::NoUpdate)
